@@ -26,4 +26,22 @@ META = {
         "note": PROOF_NOTE + "The harness host is little-endian: the big-endian half of the statement is covered by the theorems only. to_le/to_be are modelled as identity/byte swap.",
         "technique": "Lean 4 theorems over byte lists (both hosts) + exhaustive 16-bit differential run",
     },
+    "C01": {
+        "text": "Containment of every derived accessor in its parent and in the root, for chains of derivations of ANY depth (induction over the op list), exact acceptance "
+                "conditions of every bounds check (both directions, so > vs >= is pinned), alignment of typed/atomic references, isize bound of arrays, absence of panics, "
+                "and in-bounds-ness of every later raw access are proved (73 theorems). The model is tied to volatile_memory.rs by random derivation chains over roots of size 0..300 "
+                "with every base skew and boundary/overflowing operands, on four bitmap flavours, in checked and unchecked builds; an independent containment/alignment/acceptance oracle "
+                "and canary bytes around the root run on the real pointers.",
+        "design_ref": "DESIGN.md 6/C01",
+        "note": PROOF_NOTE + "Not modelled: that the root handed to the unsafe constructors is a live allocation; Rust aliasing/provenance. MmapRegion/GuestRegionMmap/GuestMemory::get_slice are exercised by the gm world (C02/C03).",
+        "technique": "Lean 4 induction over derivation chains + differential run against real pointer extents",
+    },
+    "C09": {
+        "text": "AtomicBitmap refines a set of page numbers under every operation and every finite operation history incl. enlarge/clone/nested slices (35 theorems: Inv preserved, "
+                "mark/clear = exactly the overlapped pages, out-of-range ignored, get_and_reset returns the set and empties it, no index >= size ever appears). Tied to atomic_bitmap.rs/slice.rs by "
+                "small-universe enumeration (sizes x page sizes x ranges, oracle-exhaustive in the thorough tier) and random histories with extreme ranges, vs the model and a BTreeSet oracle.",
+        "design_ref": "DESIGN.md 6/C09",
+        "note": PROOF_NOTE + "enlarge with byte_size+add >= 2^64 is outside the property (VMM-chosen operand): proved to panic in checked builds; the unchecked wrap is followed by the model (enlargeUnchecked) but not claimed.",
+        "technique": "Lean 4 refinement proof (bitmap -> set of pages) + exhaustive small-universe differential run",
+    },
 }
